@@ -45,7 +45,7 @@ def _distinct(pid, events):
 def run(pid, tier):
     def body(chk):
         thorough = tier == "thorough"
-        vlib.harness_build()
+        vlib.harness_build("vh_merkle")
         maxlen = 4 if thorough else 3
         nbeh = 0
         # ---- Leg M: proof scheme on all maps (C14; cheap, run for all three as the shared design check) ----
